@@ -24,7 +24,9 @@ def new_exec(env, d, backend=None, conf=None):
     p = env['paths'][env['cfg']]
     if conf is None: conf = mkconf(d, backend or env['backend'])
     n = len([f for f in os.listdir(d) if f.startswith('stderr')])
-    x = Exec(p['exe'], p['lib'], conf, env['ck'], env=C17_ENV, stderr=f'{d}/stderr{n}.log', trace=f'{d}/trace{n}.jsonl'); x.timeout = TIMEOUT
+    try: x = Exec(p['exe'], p['lib'], conf, env['ck'], env=C17_ENV, stderr=f'{d}/stderr{n}.log', trace=f'{d}/trace{n}.jsonl')
+    except OSError as e: raise Lost('executor could not be started (concurrent re-link?): %r' % (e,))
+    x.timeout = TIMEOUT
     return x
 
 TMPL_VALUE = {'bytes-value', 'wrong-size', 'null-value', 'ulong-value', 'date', 'mechanism-list'}
